@@ -95,6 +95,7 @@ func (iter *FastIterator) Value() []byte {
 
 // Next implements dbm.Iterator
 func (iter *FastIterator) Next() {
+	verifYield("fastIterator.Next")
 	if iter.ndb == nil {
 		iter.err = errFastIteratorNilNdbGiven
 		iter.valid = false
